@@ -154,6 +154,11 @@ func (r *c07Runner) exec(client, seq int, op c07Op, rqHook func(*s3x.Req), o s3x
 			x += "<Object><Key>" + k2 + "</Key></Object>"
 		}
 		rq = &s3x.Req{Method: "POST", Path: "/bk0", Query: s3x.Q("delete", s3x.Bare), Body: []byte(x + "</Delete>")}
+	case "badcomplete":
+		// a completion that must be refused (it names a part nobody uploads): like every refused
+		// request it leaves the upload, and the parts others are sending, alone
+		x := `<CompleteMultipartUpload><Part><PartNumber>9</PartNumber><ETag>"` + strings.Repeat("0", 32) + `"</ETag></Part></CompleteMultipartUpload>`
+		rq = &s3x.Req{Method: "POST", Path: "/bk0/mp", Query: s3x.Q("uploadId", r.upID), Body: []byte(x)}
 	case "lparts":
 		rq = &s3x.Req{Method: "GET", Path: "/bk0/mp", Query: s3x.Q("uploadId", r.upID)}
 	case "luploads":
@@ -440,6 +445,10 @@ func c07Judge(cs c07Case, evs []c07Ev) (ds []disc, overlapping bool) {
 			add(key, regIn{"w", "-"}, "")
 			if k2 := c07Key(e.Op.Src); k2 != key {
 				add(k2, regIn{"w", "-"}, "")
+			}
+		case "badcomplete":
+			if e.Status/100 == 2 {
+				fail("bad-complete-accepted", "client %d op %d: a completion naming part 9, which nobody uploads, answered %d", e.Client, e.Seq, e.Status)
 			}
 		case "lparts", "luploads":
 			if e.Status != 200 {
@@ -1250,7 +1259,7 @@ func c07Run(t *testing.T, c *evid.Collector) {
 					case 0, 1, 2:
 						op = c07Op{K: "part", Part: rapid.IntRange(1, 4).Draw(rt, "part"), Size: rapid.SampledFrom([]int{1, 100, 40000}).Draw(rt, "psize")}
 					case 3:
-						op = c07Op{K: rapid.SampledFrom([]string{"lparts", "lparts", "luploads"}).Draw(rt, "mlist")}
+						op = c07Op{K: rapid.SampledFrom([]string{"lparts", "lparts", "luploads", "badcomplete"}).Draw(rt, "mlist")}
 					}
 				}
 				ops = append(ops, op)
@@ -1395,7 +1404,7 @@ func TestC07Race(t *testing.T) {
 					if cs.Multipart && i%2 == 0 {
 						op = c07Op{K: "part", Part: int((seed>>50)%3) + 1, Size: 100}
 					} else if cs.Multipart && (seed>>55)%3 == 0 {
-						op = c07Op{K: []string{"lparts", "luploads"}[(seed>>58)%2]}
+						op = c07Op{K: []string{"lparts", "luploads", "badcomplete"}[(seed>>58)%3]}
 					}
 					ops = append(ops, op)
 				}
